@@ -281,7 +281,59 @@ pub fn check_mesh(
     None
 }
 
+/// Big axis-aligned boxes (flat faces, exact sharp edges): whole coarse cells
+/// collapse, including the top-level cells that the multi-threaded builder
+/// merges in its serial fix-up pass. Paired with scale+translate transforms,
+/// under which the boxes stay axis-aligned in world space.
+fn big_box_scene(rng: &mut Rng) -> Prog {
+    use crate::gen_::shape::B;
+    let mut b = B::new();
+    let (x, y, z) = (b.var(0), b.var(1), b.var(2));
+    let mut one = |b: &mut B, rng: &mut Rng| {
+        let c = [rng.uniform(-0.15, 0.15) as f32, rng.uniform(-0.15, 0.15) as f32, rng.uniform(-0.15, 0.15) as f32];
+        let h = [rng.uniform(0.3, 0.55) as f32, rng.uniform(0.3, 0.55) as f32, rng.uniform(0.3, 0.55) as f32];
+        let mut m = None;
+        for (k, v) in [x, y, z].into_iter().enumerate() {
+            let t = b.subc(v, c[k]);
+            let a = b.abs(t);
+            let d = b.subc(a, h[k]);
+            m = Some(match m {
+                None => d,
+                Some(p) => b.max(p, d),
+            });
+        }
+        m.unwrap()
+    };
+    let a = one(&mut b, rng);
+    let root = match rng.below(3) {
+        0 => a,
+        1 => {
+            let c = one(&mut b, rng);
+            b.min(a, c)
+        }
+        _ => {
+            let c = one(&mut b, rng);
+            let n = b.un(crate::gen_::prog::Un::Neg, c);
+            b.max(a, n)
+        }
+    };
+    Prog { nodes: b.nodes, n_vars: 3, outputs: vec![root] }
+}
+
+fn scale_translate_mat(rng: &mut Rng) -> Matrix4<f32> {
+    let mut m = Matrix4::identity();
+    for i in 0..3 {
+        m[(i, i)] = rng.uniform(1.0, 1.5) as f32 * if rng.chance(0.2) { -1.0 } else { 1.0 };
+        m[(i, 3)] = rng.uniform(-0.2, 0.2) as f32;
+    }
+    m
+}
+
 fn check_prog(p: &Prog, seed: u64, tier: Tier, st: &mut Stats) -> Option<(String, String, Value)> {
+    check_prog_(p, seed, tier, st, false)
+}
+
+fn check_prog_(p: &Prog, seed: u64, tier: Tier, st: &mut Stats, axis_aligned: bool) -> Option<(String, String, Value)> {
     let mut rng = Rng::new(seed);
     let rng = &mut rng;
     let b = p.build();
@@ -289,7 +341,7 @@ fn check_prog(p: &Prog, seed: u64, tier: Tier, st: &mut Stats) -> Option<(String
     let max_depth = tier.pick(5, 6);
     let su = MeshSetup {
         depth: if rng.chance(0.45) { max_depth as u8 } else { 1 + rng.below(max_depth) as u8 },
-        mat: random_mesh_mat(rng),
+        mat: if axis_aligned { scale_translate_mat(rng) } else { random_mesh_mat(rng) },
         jit: rng.chance(0.5),
         pool: if rng.chance(0.5) { None } else { Some(rng.below(POOL_SIZES.len())) },
     };
@@ -336,6 +388,16 @@ impl Prop for C08 {
         tier.pick(110, 1500)
     }
     fn run_case(&self, case: u64, rng: &mut Rng, st: &mut Stats, tier: Tier) {
+        if case % 5 == 4 {
+            let p = big_box_scene(rng);
+            st.distinct(p.hash());
+            st.inc("scenes_big_axis_aligned_boxes");
+            let seed = rng.next_u64();
+            if let Some((sig, msg, detail)) = check_prog_(&p, seed, tier, st, true) {
+                st.violation(case, sig, msg, json!({"detail": detail, "shape": p.to_json(), "check_seed": seed.to_string()}));
+            }
+            return;
+        }
         let mut cfg = ShapeCfg::mesh();
         cfg.min_feature = 0.25;
         cfg.max_depth = 1 + rng.below(3);
